@@ -158,12 +158,15 @@ func (d Degree) Semitone() (Semitone, bool) {
 		return 0, false
 	}
 
+	// reduce compound intervals by whole octaves at once (perfect1 is identical to perfect8)
+	span := perfect8.Value - 1
+	octaves := (d.Value - 2) / span
 	e := Degree{
-		Value: d.Value - perfect8.Value + 1, // perfect1 is identical
+		Value: d.Value - span*octaves,
 		Name:  d.Name,
 	}
 	if v, ok := e.Semitone(); ok {
-		return v + degreeSemitoneMap[perfect8], true
+		return v + Semitone(octaves)*degreeSemitoneMap[perfect8], true
 	}
 	return 0, false
 }
